@@ -6,7 +6,8 @@
                  RStep     next step of the reader:
                              RCheck : pendingData.moveTo(recvBuf); test Len >= m          (136-140)
                              RState : recvLen == 0 && !IsOpen() -> ErrEndOfStream           (142-144)
-                             RArm   : read s.readDeadline, arm / Reset the timer, enter select (146-166)
+                             RArm   : read s.readDeadline, time.NewTimer of its own for this wait (a fresh
+                                      channel: tch / ptick start empty), enter select
                              RWokeN : (took the token) moveTo; test; back to the select     (167-171)
                              RWokeC : (saw closeNotifyCh) moveTo; test; EndOfStream/StreamClosed (172-180)
                  RWake b   the parked select takes branch b (recvNotifyCh / closeNotifyCh / timer)
@@ -21,10 +22,14 @@
                            then - if the CAS succeeded - safeCloseNotify
      session     SClose    Session.Close's loop: stream.safeCloseNotify()                   (session.go 307-311)
      deadline    SetDL d   SetReadDeadline, by the reading goroutine between two calls
-     clock       Tick d ; Fire (the runtime delivers the timer value once now >= its time)
+     clock       Tick d ; Fire (the runtime delivers the timer value once now >= its time, atomically);
+                 FireA ; FireB (the same in two steps, as the Go runtime really does it for a channel
+                 timer under asynctimerchan=1 (go.mod `go 1.20`): between them Stop() already reports false
+                 but the value is not in the channel yet - a Stop + drain on a REUSED timer misses it; the code
+                 uses a timer of its own per wait)
 
    recvNotifyCh (capacity 1) is a boolean token, closeNotifyCh a closed flag, the timer channel a
-   boolean.  Returns after the timer was armed run the deferred Stop+drain (157-164).
+   boolean (of the timer of the CURRENT call).  Returns after the timer was armed run `defer timer.Stop()`.
 
    Part 2 — Flush's retry loop (226-248).   Part 3 — AcceptStream / initProtocol.              *)
 From Coq Require Import List ZArith Lia Bool Arith.
@@ -58,6 +63,7 @@ Record st := {
   dl : option Z;       (* s.readDeadline (None = zero time) *)
   tmr : option Z;      (* the timer is armed and fires at this time *)
   tch : bool;          (* the timer channel holds a value *)
+  ptick : bool;        (* the timer has expired but the runtime has not put its value into the channel yet (FireA..FireB) *)
   use_t : bool;        (* timeoutCh is non-nil in the current call *)
   armed : Z;           (* ghost: the deadline the current call armed *)
   rd : rpc; minsz : nat; res : option result }.
@@ -70,11 +76,12 @@ Inductive ev :=
 | LDefer1 | LDefer2
 | SClose
 | SetDL (d : option Z)
-| Tick (d : Z) | Fire.
+| Tick (d : Z) | Fire
+| FireA | FireB.   (* the same expiry in two steps: the timer expires (Stop() now reports false) / its value reaches the channel *)
 
 Definition init : st :=
   {| pend := 0; rbuf := 0; token := false; closeN := false; ss := SOpen; epc := false; ppc := false; lc := LIdle;
-     sclosing := false; dpc := false; now := 0; dl := None; tmr := None; tch := false; use_t := false; armed := 0;
+     sclosing := false; dpc := false; now := 0; dl := None; tmr := None; tch := false; ptick := false; use_t := false; armed := 0;
      rd := RIdle; minsz := 0; res := None |}.
 
 Definition sst_code (x : sst) : Z :=
@@ -86,22 +93,23 @@ Definition sst_eqb (a b : sst) : bool :=
 (* return before the timer section: no deferred cleanup *)
 Definition finish_early (s : st) (r : result) : st :=
   {| pend := pend s; rbuf := rbuf s; token := token s; closeN := closeN s; ss := ss s; epc := epc s; ppc := ppc s;
-     lc := lc s; sclosing := sclosing s; dpc := dpc s; now := now s; dl := dl s; tmr := tmr s; tch := tch s; use_t := use_t s;
+     lc := lc s; sclosing := sclosing s; dpc := dpc s; now := now s; dl := dl s; tmr := tmr s; tch := tch s; ptick := ptick s; use_t := use_t s;
      armed := armed s; rd := RDone; minsz := minsz s; res := Some r |}.
-(* return from the select loop: deferred Stop + drain *)
+(* return from the select loop: `defer timer.Stop()` (the timer - and its channel - belong to this call only;
+   a value still on its way lands in a channel nobody reads again) *)
 Definition finish_late (s : st) (r : result) : st :=
   {| pend := pend s; rbuf := rbuf s; token := token s; closeN := closeN s; ss := ss s; epc := epc s; ppc := ppc s;
-     lc := lc s; sclosing := sclosing s; dpc := dpc s; now := now s; dl := dl s; tmr := None; tch := false; use_t := use_t s;
+     lc := lc s; sclosing := sclosing s; dpc := dpc s; now := now s; dl := dl s; tmr := None; tch := tch s; ptick := ptick s; use_t := use_t s;
      armed := armed s; rd := RDone; minsz := minsz s; res := Some r |}.
 
 Definition move_to (s : st) : st :=
   {| pend := 0; rbuf := (rbuf s + pend s)%nat; token := token s; closeN := closeN s; ss := ss s; epc := epc s;
-     ppc := ppc s; lc := lc s; sclosing := sclosing s; dpc := dpc s; now := now s; dl := dl s; tmr := tmr s; tch := tch s;
+     ppc := ppc s; lc := lc s; sclosing := sclosing s; dpc := dpc s; now := now s; dl := dl s; tmr := tmr s; tch := tch s; ptick := ptick s;
      use_t := use_t s; armed := armed s; rd := rd s; minsz := minsz s; res := res s |}.
 
 Definition set_rd (s : st) (p : rpc) : st :=
   {| pend := pend s; rbuf := rbuf s; token := token s; closeN := closeN s; ss := ss s; epc := epc s; ppc := ppc s;
-     lc := lc s; sclosing := sclosing s; dpc := dpc s; now := now s; dl := dl s; tmr := tmr s; tch := tch s; use_t := use_t s;
+     lc := lc s; sclosing := sclosing s; dpc := dpc s; now := now s; dl := dl s; tmr := tmr s; tch := tch s; ptick := ptick s; use_t := use_t s;
      armed := armed s; rd := p; minsz := minsz s; res := res s |}.
 
 Definition reader_step (s : st) : st :=
@@ -116,11 +124,11 @@ Definition reader_step (s : st) : st :=
     match dl s with
     | Some d =>
       {| pend := pend s; rbuf := rbuf s; token := token s; closeN := closeN s; ss := ss s; epc := epc s; ppc := ppc s;
-         lc := lc s; sclosing := sclosing s; dpc := dpc s; now := now s; dl := dl s; tmr := Some d; tch := tch s; use_t := true;
+         lc := lc s; sclosing := sclosing s; dpc := dpc s; now := now s; dl := dl s; tmr := Some d; tch := false; ptick := false; use_t := true;
          armed := d; rd := RParked; minsz := minsz s; res := res s |}
     | None =>
       {| pend := pend s; rbuf := rbuf s; token := token s; closeN := closeN s; ss := ss s; epc := epc s; ppc := ppc s;
-         lc := lc s; sclosing := sclosing s; dpc := dpc s; now := now s; dl := dl s; tmr := tmr s; tch := tch s; use_t := false;
+         lc := lc s; sclosing := sclosing s; dpc := dpc s; now := now s; dl := dl s; tmr := tmr s; tch := tch s; ptick := ptick s; use_t := false;
          armed := armed s; rd := RParked; minsz := minsz s; res := res s |}
     end
   | RWokeN =>
@@ -140,7 +148,7 @@ Definition wake (s : st) (b : branch) : st :=
     | BNotify =>
       if token s then
         {| pend := pend s; rbuf := rbuf s; token := false; closeN := closeN s; ss := ss s; epc := epc s; ppc := ppc s;
-           lc := lc s; sclosing := sclosing s; dpc := dpc s; now := now s; dl := dl s; tmr := tmr s; tch := tch s; use_t := use_t s;
+           lc := lc s; sclosing := sclosing s; dpc := dpc s; now := now s; dl := dl s; tmr := tmr s; tch := tch s; ptick := ptick s; use_t := use_t s;
            armed := armed s; rd := RWokeN; minsz := minsz s; res := res s |}
       else s
     | BClose => if closeN s then set_rd s RWokeC else s
@@ -155,7 +163,7 @@ Definition step (s : st) (e : ev) : st :=
     match rd s with
     | RIdle | RDone =>
       {| pend := pend s; rbuf := rbuf s; token := token s; closeN := closeN s; ss := ss s; epc := epc s; ppc := ppc s;
-         lc := lc s; sclosing := sclosing s; dpc := dpc s; now := now s; dl := dl s; tmr := tmr s; tch := tch s; use_t := false;
+         lc := lc s; sclosing := sclosing s; dpc := dpc s; now := now s; dl := dl s; tmr := tmr s; tch := tch s; ptick := ptick s; use_t := false;
          armed := armed s; rd := RCheck; minsz := m; res := None |}
     | _ => s
     end
@@ -164,30 +172,30 @@ Definition step (s : st) (e : ev) : st :=
   | EAdd n =>
     if epc s || (n =? 0)%nat then s else
       {| pend := (pend s + n)%nat; rbuf := rbuf s; token := token s; closeN := closeN s; ss := ss s; epc := true;
-         ppc := ppc s; lc := lc s; sclosing := sclosing s; dpc := dpc s; now := now s; dl := dl s; tmr := tmr s; tch := tch s;
+         ppc := ppc s; lc := lc s; sclosing := sclosing s; dpc := dpc s; now := now s; dl := dl s; tmr := tmr s; tch := tch s; ptick := ptick s;
          use_t := use_t s; armed := armed s; rd := rd s; minsz := minsz s; res := res s |}
   | EFin =>
     if epc s then
       if sst_eqb (ss s) SClosed then
         {| pend := 0; rbuf := 0; token := token s; closeN := closeN s; ss := ss s; epc := false;
-           ppc := ppc s; lc := lc s; sclosing := sclosing s; dpc := dpc s; now := now s; dl := dl s; tmr := tmr s; tch := tch s;
+           ppc := ppc s; lc := lc s; sclosing := sclosing s; dpc := dpc s; now := now s; dl := dl s; tmr := tmr s; tch := tch s; ptick := ptick s;
            use_t := use_t s; armed := armed s; rd := rd s; minsz := minsz s; res := res s |}
       else
         {| pend := pend s; rbuf := rbuf s; token := true; closeN := closeN s; ss := ss s; epc := false;
-           ppc := ppc s; lc := lc s; sclosing := sclosing s; dpc := dpc s; now := now s; dl := dl s; tmr := tmr s; tch := tch s;
+           ppc := ppc s; lc := lc s; sclosing := sclosing s; dpc := dpc s; now := now s; dl := dl s; tmr := tmr s; tch := tch s; ptick := ptick s;
            use_t := use_t s; armed := armed s; rd := rd s; minsz := minsz s; res := res s |}
     else s
   | PClose1 =>
     if ppc s then s else
       if sst_eqb (ss s) SOpen then
         {| pend := pend s; rbuf := rbuf s; token := token s; closeN := closeN s; ss := SHalf; epc := epc s;
-           ppc := true; lc := lc s; sclosing := sclosing s; dpc := dpc s; now := now s; dl := dl s; tmr := tmr s; tch := tch s;
+           ppc := true; lc := lc s; sclosing := sclosing s; dpc := dpc s; now := now s; dl := dl s; tmr := tmr s; tch := tch s; ptick := ptick s;
            use_t := use_t s; armed := armed s; rd := rd s; minsz := minsz s; res := res s |}
       else s
   | PClose2 =>
     if ppc s then
       {| pend := pend s; rbuf := rbuf s; token := token s; closeN := true; ss := ss s; epc := epc s;
-         ppc := false; lc := lc s; sclosing := sclosing s; dpc := dpc s; now := now s; dl := dl s; tmr := tmr s; tch := tch s;
+         ppc := false; lc := lc s; sclosing := sclosing s; dpc := dpc s; now := now s; dl := dl s; tmr := tmr s; tch := tch s; ptick := ptick s;
          use_t := use_t s; armed := armed s; rd := rd s; minsz := minsz s; res := res s |}
     else s
   | LLoad =>
@@ -197,11 +205,11 @@ Definition step (s : st) (e : ev) : st :=
         (* casToClosed: already closed: return (not won) *)
         {| pend := pend s; rbuf := rbuf s; token := token s; closeN := closeN s; ss := ss s; epc := epc s;
            ppc := ppc s; lc := LIdle; sclosing := sclosing s; dpc := dpc s; now := now s; dl := dl s; tmr := tmr s;
-           tch := tch s; use_t := use_t s; armed := armed s; rd := rd s; minsz := minsz s; res := res s |}
+           tch := tch s; ptick := ptick s; use_t := use_t s; armed := armed s; rd := rd s; minsz := minsz s; res := res s |}
       else
         {| pend := pend s; rbuf := rbuf s; token := token s; closeN := closeN s; ss := ss s; epc := epc s;
            ppc := ppc s; lc := LLoaded (ss s); sclosing := sclosing s; dpc := dpc s; now := now s; dl := dl s; tmr := tmr s;
-           tch := tch s; use_t := use_t s; armed := armed s; rd := rd s; minsz := minsz s; res := res s |}
+           tch := tch s; ptick := ptick s; use_t := use_t s; armed := armed s; rd := rd s; minsz := minsz s; res := res s |}
     | _ => s
     end
   | LCas =>
@@ -210,11 +218,11 @@ Definition step (s : st) (e : ev) : st :=
       if sst_eqb (ss s) old then
         {| pend := pend s; rbuf := rbuf s; token := token s; closeN := closeN s; ss := SClosed; epc := epc s;
            ppc := ppc s; lc := LCased old; sclosing := sclosing s; dpc := dpc s; now := now s; dl := dl s; tmr := tmr s;
-           tch := tch s; use_t := use_t s; armed := armed s; rd := rd s; minsz := minsz s; res := res s |}
+           tch := tch s; ptick := ptick s; use_t := use_t s; armed := armed s; rd := rd s; minsz := minsz s; res := res s |}
       else
         {| pend := pend s; rbuf := rbuf s; token := token s; closeN := closeN s; ss := ss s; epc := epc s;
            ppc := ppc s; lc := LRetry; sclosing := sclosing s; dpc := dpc s; now := now s; dl := dl s; tmr := tmr s;
-           tch := tch s; use_t := use_t s; armed := armed s; rd := rd s; minsz := minsz s; res := res s |}
+           tch := tch s; ptick := ptick s; use_t := use_t s; armed := armed s; rd := rd s; minsz := minsz s; res := res s |}
     | _ => s
     end
   | LClean =>
@@ -222,7 +230,7 @@ Definition step (s : st) (e : ev) : st :=
     | LCased old =>
       {| pend := 0; rbuf := 0; token := token s; closeN := closeN s; ss := ss s; epc := epc s;
          ppc := ppc s; lc := LCleaned old; sclosing := sclosing s; dpc := dpc s; now := now s; dl := dl s; tmr := tmr s;
-         tch := tch s; use_t := use_t s; armed := armed s; rd := rd s; minsz := minsz s; res := res s |}
+         tch := tch s; ptick := ptick s; use_t := use_t s; armed := armed s; rd := rd s; minsz := minsz s; res := res s |}
     | _ => s
     end
   | LNotify =>
@@ -230,7 +238,7 @@ Definition step (s : st) (e : ev) : st :=
     | LCleaned old =>
       {| pend := pend s; rbuf := rbuf s; token := token s; closeN := closeN s || sst_eqb old SOpen || sst_eqb old SLocalHalf; ss := ss s; epc := epc s;
          ppc := ppc s; lc := LIdle; sclosing := sclosing s; dpc := dpc s; now := now s; dl := dl s; tmr := tmr s;
-         tch := tch s; use_t := use_t s; armed := armed s; rd := rd s; minsz := minsz s; res := res s |}
+         tch := tch s; ptick := ptick s; use_t := use_t s; armed := armed s; rd := rd s; minsz := minsz s; res := res s |}
     | _ => s
     end
   | LDefer1 =>
@@ -240,32 +248,32 @@ Definition step (s : st) (e : ev) : st :=
     if sst_eqb (ss s) SOpen then
       {| pend := pend s; rbuf := rbuf s; token := token s; closeN := closeN s; ss := SLocalHalf; epc := epc s;
          ppc := ppc s; lc := lc s; sclosing := sclosing s; dpc := true; now := now s; dl := dl s; tmr := tmr s;
-         tch := tch s; use_t := use_t s; armed := armed s; rd := rd s; minsz := minsz s; res := res s |}
+         tch := tch s; ptick := ptick s; use_t := use_t s; armed := armed s; rd := rd s; minsz := minsz s; res := res s |}
     else s
   | LDefer2 =>
     (* ... but when the CAS succeeded, safeCloseNotify wakes a reader parked inside that callback *)
     if dpc s then
       {| pend := pend s; rbuf := rbuf s; token := token s; closeN := true; ss := ss s; epc := epc s;
          ppc := ppc s; lc := lc s; sclosing := sclosing s; dpc := false; now := now s; dl := dl s; tmr := tmr s;
-         tch := tch s; use_t := use_t s; armed := armed s; rd := rd s; minsz := minsz s; res := res s |}
+         tch := tch s; ptick := ptick s; use_t := use_t s; armed := armed s; rd := rd s; minsz := minsz s; res := res s |}
     else s
   | SClose =>
     {| pend := pend s; rbuf := rbuf s; token := token s; closeN := true; ss := ss s; epc := epc s;
        ppc := ppc s; lc := lc s; sclosing := true; dpc := dpc s; now := now s; dl := dl s; tmr := tmr s;
-       tch := tch s; use_t := use_t s; armed := armed s; rd := rd s; minsz := minsz s; res := res s |}
+       tch := tch s; ptick := ptick s; use_t := use_t s; armed := armed s; rd := rd s; minsz := minsz s; res := res s |}
   | SetDL d =>
     match rd s with
     | RIdle | RDone =>
       {| pend := pend s; rbuf := rbuf s; token := token s; closeN := closeN s; ss := ss s; epc := epc s;
          ppc := ppc s; lc := lc s; sclosing := sclosing s; dpc := dpc s; now := now s; dl := d; tmr := tmr s;
-         tch := tch s; use_t := use_t s; armed := armed s; rd := rd s; minsz := minsz s; res := res s |}
+         tch := tch s; ptick := ptick s; use_t := use_t s; armed := armed s; rd := rd s; minsz := minsz s; res := res s |}
     | _ => s
     end
   | Tick d =>
     if 0 <? d then
       {| pend := pend s; rbuf := rbuf s; token := token s; closeN := closeN s; ss := ss s; epc := epc s;
          ppc := ppc s; lc := lc s; sclosing := sclosing s; dpc := dpc s; now := now s + d; dl := dl s; tmr := tmr s;
-         tch := tch s; use_t := use_t s; armed := armed s; rd := rd s; minsz := minsz s; res := res s |}
+         tch := tch s; ptick := ptick s; use_t := use_t s; armed := armed s; rd := rd s; minsz := minsz s; res := res s |}
     else s
   | Fire =>
     match tmr s with
@@ -273,10 +281,26 @@ Definition step (s : st) (e : ev) : st :=
       if t <=? now s then
         {| pend := pend s; rbuf := rbuf s; token := token s; closeN := closeN s; ss := ss s; epc := epc s;
            ppc := ppc s; lc := lc s; sclosing := sclosing s; dpc := dpc s; now := now s; dl := dl s; tmr := None;
-           tch := true; use_t := use_t s; armed := armed s; rd := rd s; minsz := minsz s; res := res s |}
+           tch := true; ptick := ptick s; use_t := use_t s; armed := armed s; rd := rd s; minsz := minsz s; res := res s |}
       else s
     | None => s
     end
+  | FireA =>
+    match tmr s with
+    | Some t =>
+      if t <=? now s then
+        {| pend := pend s; rbuf := rbuf s; token := token s; closeN := closeN s; ss := ss s; epc := epc s;
+           ppc := ppc s; lc := lc s; sclosing := sclosing s; dpc := dpc s; now := now s; dl := dl s; tmr := None;
+           tch := tch s; ptick := true; use_t := use_t s; armed := armed s; rd := rd s; minsz := minsz s; res := res s |}
+      else s
+    | None => s
+    end
+  | FireB =>
+    if ptick s then
+      {| pend := pend s; rbuf := rbuf s; token := token s; closeN := closeN s; ss := ss s; epc := epc s;
+         ppc := ppc s; lc := lc s; sclosing := sclosing s; dpc := dpc s; now := now s; dl := dl s; tmr := tmr s;
+         tch := true; ptick := false; use_t := use_t s; armed := armed s; rd := rd s; minsz := minsz s; res := res s |}
+    else s
   end.
 
 Definition run (evs : list ev) (s : st) : st := fold_left step evs s.
